@@ -276,7 +276,7 @@ func wantStr(v string) func(zygo.Sexp) (bool, string) {
 
 func c12literals(thorough bool) []c12lit {
 	var ls []c12lit
-	digs := []string{"0", "1", "7", "9", "10", "42", "007", "1_000", "9_9", "123456", "9223372036854775807"}
+	digs := []string{"0", "1", "7", "9", "10", "42", "007", "010", "08", "009", "00", "017", "0_100", "1_000", "9_9", "1__0", "123456", "9223372036854775807"}
 	for _, d := range digs {
 		v, _ := strconv.ParseInt(strings.ReplaceAll(d, "_", ""), 10, 64)
 		ls = append(ls, c12lit{d, wantInt(v)}, c12lit{"-" + d, wantInt(-v)})
